@@ -194,6 +194,18 @@ def run(ctx, chk):
              "types): no guard, clamp or second opinion between the stored value and the caller (size and serialize read the same counts, lengths and widths)")
     import rules as _rg
     _rg.check_field_getters(chk, "C07.getters", prog, eff, names=('cbor_string_length', 'cbor_bytestring_length', 'cbor_string_handle', 'cbor_bytestring_handle', 'cbor_string_chunk_count', 'cbor_bytestring_chunk_count', 'cbor_string_chunks_handle', 'cbor_bytestring_chunks_handle', 'cbor_array_size', 'cbor_map_size', 'cbor_array_handle', 'cbor_map_handle', 'cbor_tag_value', 'cbor_ctrl_value', 'cbor_float_get_width', 'cbor_int_get_width', 'cbor_typeof'))
+    chk.rule("C07.narrowing", "no 64-bit quantity is converted to a narrower integer type except to take one byte of it or below a range test that makes "
+             "the conversion lossless (size and serializer see the same length; shared with C02.narrowing)")
+    import rules as _rnw2
+    _rnw2.check_narrowing(chk, "C07.narrowing", prog, eff=eff)
+    chk.rule("C07.width", "each width arm of the integer / float serializers calls the encoder of THAT width - the one whose byte count the sizing "
+             "routine reports for the arm (a half that is quietly written as a single is two bytes longer than its size; shared with C03.width)")
+    import typestate as _ts7
+    import ownership as _O7
+    from props.c03 import check_width as _cw7
+    _H7, _PA7, _IF7, _x7 = ctx.typestate()
+    _c7 = _O7.PathCache(prog, eff)
+    _cw7(chk, "C07.width", prog, eff, _c7, _H7, _PA7, _ts7.CallSites(prog, eff, _c7, _H7, _PA7))
     chk.exhaustive = True
 
 
